@@ -70,6 +70,18 @@ Props/C01OpsH.vos Props/C01OpsH.vok Props/C01OpsH.required_vos: Props/C01OpsH.v 
 Props/C01Flow.vo Props/C01Flow.glob Props/C01Flow.v.beautified Props/C01Flow.required_vo: Props/C01Flow.v Spec/ISA.vo Spec/Spec816.vo Lib/ZOps.vo Lib/Machine.vo Snapshot/GenFields.vo Snapshot/GenCpu65.vo Props/C01Base.vo
 Props/C01Flow.vio: Props/C01Flow.v Spec/ISA.vio Spec/Spec816.vio Lib/ZOps.vio Lib/Machine.vio Snapshot/GenFields.vio Snapshot/GenCpu65.vio Props/C01Base.vio
 Props/C01Flow.vos Props/C01Flow.vok Props/C01Flow.required_vos: Props/C01Flow.v Spec/ISA.vos Spec/Spec816.vos Lib/ZOps.vos Lib/Machine.vos Snapshot/GenFields.vos Snapshot/GenCpu65.vos Props/C01Base.vos
-Props/C01Props.vo Props/C01Props.glob Props/C01Props.v.beautified Props/C01Props.required_vo: Props/C01Props.v Spec/ISA.vo Spec/Spec816.vo Lib/ZOps.vo Lib/Machine.vo Snapshot/GenFields.vo Snapshot/GenCpu65.vo Props/C01Base.vo Props/C01Shift.vo Props/C01OpsA.vo Props/C01OpsB.vo Props/C01OpsC.vo Props/C01OpsD.vo Props/C01OpsE.vo Props/C01OpsF.vo Props/C01OpsG.vo Props/C01OpsH.vo Props/C01Flow.vo
-Props/C01Props.vio: Props/C01Props.v Spec/ISA.vio Spec/Spec816.vio Lib/ZOps.vio Lib/Machine.vio Snapshot/GenFields.vio Snapshot/GenCpu65.vio Props/C01Base.vio Props/C01Shift.vio Props/C01OpsA.vio Props/C01OpsB.vio Props/C01OpsC.vio Props/C01OpsD.vio Props/C01OpsE.vio Props/C01OpsF.vio Props/C01OpsG.vio Props/C01OpsH.vio Props/C01Flow.vio
-Props/C01Props.vos Props/C01Props.vok Props/C01Props.required_vos: Props/C01Props.v Spec/ISA.vos Spec/Spec816.vos Lib/ZOps.vos Lib/Machine.vos Snapshot/GenFields.vos Snapshot/GenCpu65.vos Props/C01Base.vos Props/C01Shift.vos Props/C01OpsA.vos Props/C01OpsB.vos Props/C01OpsC.vos Props/C01OpsD.vos Props/C01OpsE.vos Props/C01OpsF.vos Props/C01OpsG.vos Props/C01OpsH.vos Props/C01Flow.vos
+Props/C01Imm.vo Props/C01Imm.glob Props/C01Imm.v.beautified Props/C01Imm.required_vo: Props/C01Imm.v Spec/ISA.vo Spec/Spec816.vo Lib/ZOps.vo Lib/Machine.vo Snapshot/GenFields.vo Snapshot/GenCpu65.vo Props/C01Base.vo Props/C01Flow.vo
+Props/C01Imm.vio: Props/C01Imm.v Spec/ISA.vio Spec/Spec816.vio Lib/ZOps.vio Lib/Machine.vio Snapshot/GenFields.vio Snapshot/GenCpu65.vio Props/C01Base.vio Props/C01Flow.vio
+Props/C01Imm.vos Props/C01Imm.vok Props/C01Imm.required_vos: Props/C01Imm.v Spec/ISA.vos Spec/Spec816.vos Lib/ZOps.vos Lib/Machine.vos Snapshot/GenFields.vos Snapshot/GenCpu65.vos Props/C01Base.vos Props/C01Flow.vos
+Props/C01OpsI.vo Props/C01OpsI.glob Props/C01OpsI.v.beautified Props/C01OpsI.required_vo: Props/C01OpsI.v Spec/ISA.vo Spec/Spec816.vo Lib/ZOps.vo Lib/Machine.vo Snapshot/GenFields.vo Snapshot/GenCpu65.vo Props/C01Base.vo Props/C01Flow.vo Props/C01Imm.vo
+Props/C01OpsI.vio: Props/C01OpsI.v Spec/ISA.vio Spec/Spec816.vio Lib/ZOps.vio Lib/Machine.vio Snapshot/GenFields.vio Snapshot/GenCpu65.vio Props/C01Base.vio Props/C01Flow.vio Props/C01Imm.vio
+Props/C01OpsI.vos Props/C01OpsI.vok Props/C01OpsI.required_vos: Props/C01OpsI.v Spec/ISA.vos Spec/Spec816.vos Lib/ZOps.vos Lib/Machine.vos Snapshot/GenFields.vos Snapshot/GenCpu65.vos Props/C01Base.vos Props/C01Flow.vos Props/C01Imm.vos
+Props/C01OpsJ.vo Props/C01OpsJ.glob Props/C01OpsJ.v.beautified Props/C01OpsJ.required_vo: Props/C01OpsJ.v Spec/ISA.vo Spec/Spec816.vo Lib/ZOps.vo Lib/Machine.vo Snapshot/GenFields.vo Snapshot/GenCpu65.vo Props/C01Base.vo Props/C01Flow.vo Props/C01Imm.vo
+Props/C01OpsJ.vio: Props/C01OpsJ.v Spec/ISA.vio Spec/Spec816.vio Lib/ZOps.vio Lib/Machine.vio Snapshot/GenFields.vio Snapshot/GenCpu65.vio Props/C01Base.vio Props/C01Flow.vio Props/C01Imm.vio
+Props/C01OpsJ.vos Props/C01OpsJ.vok Props/C01OpsJ.required_vos: Props/C01OpsJ.v Spec/ISA.vos Spec/Spec816.vos Lib/ZOps.vos Lib/Machine.vos Snapshot/GenFields.vos Snapshot/GenCpu65.vos Props/C01Base.vos Props/C01Flow.vos Props/C01Imm.vos
+Props/C01OpsK.vo Props/C01OpsK.glob Props/C01OpsK.v.beautified Props/C01OpsK.required_vo: Props/C01OpsK.v Spec/ISA.vo Spec/Spec816.vo Lib/ZOps.vo Lib/Machine.vo Snapshot/GenFields.vo Snapshot/GenCpu65.vo Props/C01Base.vo Props/C01Flow.vo Props/C01Imm.vo
+Props/C01OpsK.vio: Props/C01OpsK.v Spec/ISA.vio Spec/Spec816.vio Lib/ZOps.vio Lib/Machine.vio Snapshot/GenFields.vio Snapshot/GenCpu65.vio Props/C01Base.vio Props/C01Flow.vio Props/C01Imm.vio
+Props/C01OpsK.vos Props/C01OpsK.vok Props/C01OpsK.required_vos: Props/C01OpsK.v Spec/ISA.vos Spec/Spec816.vos Lib/ZOps.vos Lib/Machine.vos Snapshot/GenFields.vos Snapshot/GenCpu65.vos Props/C01Base.vos Props/C01Flow.vos Props/C01Imm.vos
+Props/C01Props.vo Props/C01Props.glob Props/C01Props.v.beautified Props/C01Props.required_vo: Props/C01Props.v Spec/ISA.vo Spec/Spec816.vo Lib/ZOps.vo Lib/Machine.vo Snapshot/GenFields.vo Snapshot/GenCpu65.vo Props/C01Base.vo Props/C01Shift.vo Props/C01OpsA.vo Props/C01OpsB.vo Props/C01OpsC.vo Props/C01OpsD.vo Props/C01OpsE.vo Props/C01OpsF.vo Props/C01OpsG.vo Props/C01OpsH.vo Props/C01Flow.vo Props/C01Imm.vo Props/C01OpsI.vo Props/C01OpsJ.vo Props/C01OpsK.vo
+Props/C01Props.vio: Props/C01Props.v Spec/ISA.vio Spec/Spec816.vio Lib/ZOps.vio Lib/Machine.vio Snapshot/GenFields.vio Snapshot/GenCpu65.vio Props/C01Base.vio Props/C01Shift.vio Props/C01OpsA.vio Props/C01OpsB.vio Props/C01OpsC.vio Props/C01OpsD.vio Props/C01OpsE.vio Props/C01OpsF.vio Props/C01OpsG.vio Props/C01OpsH.vio Props/C01Flow.vio Props/C01Imm.vio Props/C01OpsI.vio Props/C01OpsJ.vio Props/C01OpsK.vio
+Props/C01Props.vos Props/C01Props.vok Props/C01Props.required_vos: Props/C01Props.v Spec/ISA.vos Spec/Spec816.vos Lib/ZOps.vos Lib/Machine.vos Snapshot/GenFields.vos Snapshot/GenCpu65.vos Props/C01Base.vos Props/C01Shift.vos Props/C01OpsA.vos Props/C01OpsB.vos Props/C01OpsC.vos Props/C01OpsD.vos Props/C01OpsE.vos Props/C01OpsF.vos Props/C01OpsG.vos Props/C01OpsH.vos Props/C01Flow.vos Props/C01Imm.vos Props/C01OpsI.vos Props/C01OpsJ.vos Props/C01OpsK.vos
